@@ -65,9 +65,13 @@ class Simulate(Contract):
             # of the clp belong together
             if tier == "quick" or k % 5 == 0:
                 yield {"cfg": cfg.name, "_cfg": cfg, "global_axis_descending": True}
+            # the clp may be given on its own global coordinate (a pixel index): it is consumed by position, the simulated
+            # dataset lives on the requested coordinates
+            if k % 3 == 0 and not any(ds.global_megacomplexes for ds in cfg.datasets):
+                yield {"cfg": cfg.name, "_cfg": cfg, "clp_on_pixel_index": True}
 
     def case_id(self, case):
-        return f"cfg={case['cfg']}" + (",global_axis_descending" if case.get("global_axis_descending") else "")
+        return f"cfg={case['cfg']}" + (",global_axis_descending" if case.get("global_axis_descending") else "") + (",clp_on_pixel_index" if case.get("clp_on_pixel_index") else "")
 
     def build(self, S, case):
         return harness.build(S, case["_cfg"])
@@ -90,7 +94,7 @@ class Simulate(Contract):
                     continue
                 out[ds.label] = (simulate(b.model, ds.label, b.parameters, coords), None)
             else:
-                clp, labels = _gen_clps(b, ds, axis=self._axis(case, ds))
+                clp, labels = _gen_clps(b, ds, axis=[float(g) + 100.0 for g in range(len(ds.global_axis))] if case.get("clp_on_pixel_index") else self._axis(case, ds))
                 out[ds.label] = (simulate(b.model, ds.label, b.parameters, coords, clp=clp), clp)
         return out
 
